@@ -24,6 +24,7 @@ RULE = ('E2 (Hypothesis rule-based state machine, history replayable from its st
         'step: result type, .geometry.name == model active, rows/ids/index as the model says, behaviour follows the active column. '
         'Non-trivial: history with >= 2 steps of which at least one is a set_geometry / concat / Dask / parquet step. '
         'distinct = distinct histories.')
+RULE += (' Added after the seeded rounds: the lazy result of Dask cx (type, .geometry, per-partition name, total_bounds); pack_partitions after a pack along another geometry column.')
 ASSUMPTIONS = ['operations not listed in the statement (merge, groupby ...) are not exercised', 'column order is not asserted']
 BUDGET = {'quick': {'stateful_shards': 16, 'stateful_examples': 800, 'steps': 8, 'min_evaluations': 300},
           'thorough': {'stateful_shards': 16, 'stateful_examples': 6000, 'steps': 12, 'min_evaluations': 2500}}
